@@ -202,10 +202,13 @@ def fold_report(chk: Check, verdicts: T.List[T.Dict[str, T.Any]], by_id: T.Dict[
 def part_fold(chk: Check, ex: ProcessPoolExecutor, tmp: T.Any) -> None:
     quick = chk.tier == 'quick'
     maxlen = 2 if quick else 3
-    cfg = ('SPECIFICATION Spec\nCONSTANTS MaxLen = %d\nINVARIANT Total\nINVARIANT Incremental\nINVARIANT SliceLaw\n'
+    cfg = ('SPECIFICATION Spec\nCONSTANTS MaxLen = %d\n Preloaded = %s\nINVARIANT Total\nINVARIANT Incremental\nINVARIANT SliceLaw\n'
            'INVARIANT Commute\nINVARIANT DelayedIsMoved\nPROPERTY AppendKeeps\nPROPERTY InterfaceStaysOut\n'
-           'PROPERTY CacheNeedsForce\nCHECK_DEADLOCK FALSE\nPOSTCONDITION EmitAlphabet\n' % maxlen)
-    res = run_tlc(FAM, 'CMakeFold_MC', cfg_text=cfg, collect=['fold_alphabet.json'], timeout=3400, allow_violation=False, heap='8g')
+           'PROPERTY CacheNeedsForce\nCHECK_DEADLOCK FALSE\nPOSTCONDITION EmitAlphabet\n')
+    # from the state preload.cmake leaves (delayed commands pile up until a flush), then from the plain start
+    res = run_tlc(FAM, 'CMakeFold_MC', cfg_text=cfg % (maxlen, 'TRUE'), timeout=3400, allow_violation=False, heap='8g')
+    chk.add_tlc(f'CMakeFold_MC[MaxLen={maxlen},Preloaded]', res)
+    res = run_tlc(FAM, 'CMakeFold_MC', cfg_text=cfg % (maxlen, 'FALSE'), collect=['fold_alphabet.json'], timeout=3400, allow_violation=False, heap='8g')
     chk.add_tlc(f'CMakeFold_MC[MaxLen={maxlen}]', res)
     exported = json.loads(res.collected['fold_alphabet.json'])
     alphabet, prelude, vn = exported['alphabet'], exported['prelude'], exported['vars']
@@ -225,7 +228,7 @@ def part_fold(chk: Check, ex: ProcessPoolExecutor, tmp: T.Any) -> None:
             for fmt in ('json', 'human'):
                 if fmt == 'human' and any(alphabet[i]['h'] == 0 for i in idx):
                     continue
-                if any((idx[:k], fmt) in failed for k in range(1, n)):
+                if any((idx[:k], fmt) in failed for k in range(0, n)):
                     subsumed += 1
                     continue
                 cmds = prelude + [alphabet[i]['c'] for i in idx]
